@@ -373,6 +373,24 @@ func init() {
 		},
 		LevelNote: "Proved: a ticket is served from the cache without renewal only if the first clock reading lies after the entry's start time and the second before its end time (the entry being the one read under the cache lock); a renewed TGT overwrites every field of the session with the values of the KDC reply (authtime, endtime, renew-till, ticket, session key, key expiration); AS and TGS referral chains are bounded by the variant 6 - referral, including through TGSREQGenerateAndExchange. The protocol-level clauses are listed as not decided.",
 	}
+	props["C15"] = &PropDef{
+		Funcs: []string{
+			`credentials\.read(Int8|Int16|Int32|Bytes|Data|Timestamp|Address|AuthDataEntry)`,
+			`\(\*credentials\.CCache\)\.(Contains|GetEntry|GetEntries)`, `(types.PrincipalName).Equal`,
+		},
+		Kinds:           kinds(contractKinds...),
+		NeedObligations: true,
+		QuickTimeout:    20,
+		Assumptions: []string{
+			"isNativeEndianLittle (unsafe) is trusted; bytes.Buffer / binary.Read models are exact on the buffer contents (trusted stdlib)",
+			"the readers have no error result: 'enough octets remain at the cursor' is their precondition; well-formed files satisfy it, the parser does not check it for arbitrary files (known finding of C04: credentials.read* / parse* / Unmarshal)",
+			"time.Unix / Time.Unix are related by timeunix(time.Unix(s, 0)) = s",
+		},
+		NotDecided: []string{
+			"the composition of the readers into parseHeader / parsePrincipal / parseCredential / Unmarshal for whole files of format versions 1 to 4 (a file-level well-formedness predicate and the version-dependent layout are not under contract), and client.NewFromCCache",
+		},
+		LevelNote: "Proved for every buffer, cursor and byte order: the ccache readers decode exactly the octets at the cursor - 8/16/32-bit integers in the file's byte order, counted octet strings (32-bit length then data, copied into a new slice), addresses and authorization-data entries (16-bit type, counted data), timestamps as sign-extended 32-bit seconds - and advance the cursor by exactly what they consumed; Contains / GetEntry decide by equality of all principal-name components and GetEntry returns the first such credential; GetEntries returns a new list whose elements are credentials of the cache, and none of the lookups writes to the cache.",
+	}
 	props["C17"] = &PropDef{
 		Funcs: []string{
 			`(*gssapi.WrapToken).Marshal`, `(*gssapi.WrapToken).Unmarshal`, `(*gssapi.WrapToken).computeCheckSum`, `(*gssapi.WrapToken).Verify`,
